@@ -129,7 +129,14 @@ class Interp:
             v = self.operand(env, rv["a"], hooks)
             if rv["op"] == "Not" and v[0] == "bool":
                 return ("bool", not v[1])
+            if rv["op"] == "PtrMetadata" and v[0] == "tuple":
+                return ("int", len(v[1]))        # length of a slice modelled as a tuple of its elements
             return ("unknown", "unop")
+        if k == "len":
+            v = self.read_place(env, rv["place"], hooks)
+            if v[0] == "tuple":
+                return ("int", len(v[1]))
+            return ("unknown", "len of %s" % v[0])
         if k == "discr":
             v = self.read_place(env, rv["place"], hooks)
             if v[0] == "variant":
